@@ -48,7 +48,12 @@ def make_tube(ndim, g, T1=None):
         tube.make_2D(g["h"] / 2)
     times = np.array([0.0, 1.0])
     tube.set_times(times)
-    tube.set_pressure_bc(receiver.PressureBC(times, np.array([0.0, g.get("p", 0.0)])))
+    if g.get("pgrid", (g["nr"] + ndim) % 2 == 0):
+        # the pressure history is tabulated on its own time axis (same number of points as the tube's, other
+        # instants): it is a function of time, so p(1) = 4p/4 = p exactly as on the tube's own axis
+        tube.set_pressure_bc(receiver.PressureBC(np.array([0.0, 4.0]), np.array([0.0, 4.0 * g.get("p", 0.0)])))
+    else:
+        tube.set_pressure_bc(receiver.PressureBC(times, np.array([0.0, g.get("p", 0.0)])))
     if T1 is None:
         T1 = np.full(g["nr"], g.get("dT", 0.0))
     # a uniform preheat at the first time: thermal strains are relative to the temperature at t0, so
